@@ -14,12 +14,13 @@ VERIF = os.path.dirname(os.path.dirname(os.path.abspath(__file__)))
 ap = argparse.ArgumentParser()
 ap.add_argument('sid'); ap.add_argument('--tier', default='quick'); ap.add_argument('--in-place', action='store_true')
 ap.add_argument('--seed', default='0')
+ap.add_argument('--prop', default=None, help='run the check of another property against this change')
 ap.add_argument('--record', action='store_true', help='store the outcome in meta.json')
 ap.add_argument('--note', default='')
 a = ap.parse_args()
 d = os.path.join(VERIF, 'seeded', a.sid)
 meta = json.load(open(os.path.join(d, 'meta.json')))
-prop = meta['property']
+prop = a.prop or meta['property']
 patch = os.path.join(d, 'patch.diff')
 env = dict(os.environ, VERIF_SEED=a.seed)
 if a.in_place:
